@@ -34,7 +34,8 @@ def run_case(patch, props, expect_violation, label):
 
 
 def main(only=None):
-    results = []
+    from concurrent.futures import ThreadPoolExecutor
+    jobs = []
     for meta in sorted(glob.glob(os.path.join(VERIF, "seeded", "*", "meta.json"))):
         sd = os.path.dirname(meta)
         sid = os.path.basename(sd)
@@ -42,13 +43,17 @@ def main(only=None):
             continue
         m = json.load(open(meta))
         props = m.get("detected_by_checks") or [m["property"]]
-        results += run_case(os.path.join(sd, "patch.diff"), props, True, "seeded/" + sid)
+        jobs.append((os.path.join(sd, "patch.diff"), props, True, "seeded/" + sid))
     for meta in sorted(glob.glob(os.path.join(VERIF, "selftest", "quiet", "*.json"))):
         qid = os.path.basename(meta)[:-5]
         if only and only not in ('quiet/' + qid):
             continue
         m = json.load(open(meta))
-        results += run_case(meta[:-5] + ".diff", m["checks"], False, "quiet/" + qid)
+        jobs.append((meta[:-5] + ".diff", m["checks"], False, "quiet/" + qid))
+    results = []
+    with ThreadPoolExecutor(6) as ex:
+        for r in ex.map(lambda j: run_case(*j), jobs):
+            results += r
     bad = 0
     for label, p, st, detail in results:
         print("%-11s %-45s %-4s %s" % (st, label, p, detail))
@@ -59,16 +64,21 @@ def main(only=None):
 
 
 def cases_for(pid):
-    """Seeded changes and quiet refactors that exercise property pid: [(label, check, status, detail)]."""
-    out = []
+    """Seeded changes and quiet refactors that exercise property pid: [(label, check, status, detail)] (run 8 at a time)."""
+    from concurrent.futures import ThreadPoolExecutor
+    jobs = []
     for meta in sorted(glob.glob(os.path.join(VERIF, "seeded", "*", "meta.json"))):
         sd = os.path.dirname(meta)
         m = json.load(open(meta))
         props = m.get("detected_by_checks") or [m["property"]]
         if pid in props:
-            out += run_case(os.path.join(sd, "patch.diff"), [pid], True, "seeded/" + os.path.basename(sd))
+            jobs.append((os.path.join(sd, "patch.diff"), [pid], True, "seeded/" + os.path.basename(sd)))
     for meta in sorted(glob.glob(os.path.join(VERIF, "selftest", "quiet", "*.json"))):
         m = json.load(open(meta))
         if pid in m["checks"]:
-            out += run_case(meta[:-5] + ".diff", [pid], False, "quiet/" + os.path.basename(meta)[:-5])
+            jobs.append((meta[:-5] + ".diff", [pid], False, "quiet/" + os.path.basename(meta)[:-5]))
+    out = []
+    with ThreadPoolExecutor(8) as ex:
+        for r in ex.map(lambda j: run_case(*j), jobs):
+            out += r
     return out
